@@ -105,6 +105,16 @@ theorem sigAdj_le_stTok (pc : SPc) (tasks : List Kind) (c : TaskId) : sigAdj pc 
     · exact Nat.zero_le _
   · exact Nat.zero_le _
 
+theorem sTokC_typed {l : List Kind} {pc : SPc} {c : TaskId} (hok : sOk l pc) (h : sTokC pc c ≠ 0) : tagAt l c = some 1 := by
+  unfold sTokC at h
+  split at h <;> first
+    | (exact absurd rfl h)
+    | (split at h
+       · rename_i e; subst e
+         simp only [sOk, hubOk] at hok
+         first | exact hok | exact hok.2
+       · exact absurd rfl h)
+
 /-- nothing refers to an id that has not been allocated yet -/
 theorem tok_fresh {s : State} (hK : InvK s) :
     s.incoming.count s.tasks.length = 0 ∧ s.hubTasks.count s.tasks.length = 0 ∧ hTokC s.h s.tasks.length = 0 ∧
@@ -414,16 +424,373 @@ theorem stepF_L {s s' : State} {i : Nat} (hK : InvK s) (hC : InvC s) (h : InvL s
     all_goals (have hsok := hK.fref i f hf; simp only [hpc, fOk] at hsok)
     all_goals intro c hc
     all_goals first
+      -- nothing that concerns the CallLaterTask
       | (have h1 := hone c hc
          simp only [tok] at h1 ⊢
          rw [(spawnTok_set hf _ c).1]
          have hge := (spawnTok_set hf f c).2
          simp only [hpc] at hge ⊢
-         trace_state
-         sorry)
+         try rw [sigAdj_append hK.sref]
+         try rw [stTok_append]
+         try rw [sigAdj_set_sync (by assumption) _ c (fun a b hp => Kind.noConfusion hp)]
+         try rw [stTok_set_same c (by assumption) (fun e => Kind.noConfusion e) (fun e => Kind.noConfusion e)]
+         simp [b2n] at hge ⊢
+         omega)
+      -- an id that is not the CallLaterTask: a new ScheduleTask is appended to `ready` / created for another task
+      | (have h1 := hone c hc
+         have e := ne_clt hK hc hsok (by decide)
+         simp only [tok] at h1 ⊢
+         rw [(spawnTok_set hf _ c).1]
+         have hge := (spawnTok_set hf f c).2
+         simp only [hpc] at hge ⊢
+         try rw [sigAdj_append hK.sref]
+         try rw [stTok_append]
+         try rw [count_append_self]
+         simp [b2n, e] at hge ⊢
+         omega)
       | skip
-    all_goals sorry
-  · sorry
-  · sorry
+    · -- `self._callLaterTask = CallLaterTask()` on a foreign thread
+      have e : s.tasks.length = c := Option.some.inj hc
+      subst e
+      obtain ⟨f1, f2, f3, f4, f5⟩ := tok_fresh hK
+      have f0 := count_fresh hK
+      have f6 : sTokC s.s s.tasks.length = 0 := by
+        by_cases hz : sTokC s.s s.tasks.length = 0
+        · exact hz
+        · have := tagAt_lt (sTokC_typed hK.sref hz); omega
+      simp only [tok, f0, f1, f2, f3, f6]
+      rw [(spawnTok_set hf _ _).1, stTok_append, sigAdj_append hK.sref]
+      have hs1 := sigAdj_le_stTok s.s s.tasks s.tasks.length
+      simp [b2n, hpc, f4, f5] at hs1 ⊢
+      omega
+  · f_cases hs s i f hf hpc
+    all_goals first
+      | exact hcps
+      | (intro hq; obtain ⟨c, hc, _⟩ := hcps hq; rw [hC.crF i f hf hpc] at hc; cases hc)
+  · f_cases hs s i f hf hpc
+    all_goals first
+      | exact hcph
+      | (intro hq; obtain ⟨c, hc, _⟩ := hcph hq; rw [hC.crF i f hf hpc] at hc; cases hc)
+
+theorem stepT_L {s s' : State} {t : Tid} (h : InvL s) (hs : stepT s t = some s') : InvL s' := by
+  obtain ⟨hone, hcps, hcph⟩ := h
+  t_cases hs s t hpc
+  all_goals first
+    | exact ⟨hone, hcps, hcph⟩
+    | (refine ⟨?_, ?_, hcph⟩
+       · intro c hc
+         have h1 := hone c hc
+         simp only [tok, sTokC, sigAdj, hpc] at h1 ⊢
+         exact h1
+       · intro hq; cases hq)
+
+theorem init_L (threaded : Bool) (users : List (List UItem)) (progs : List (List Op)) :
+    InvL (Handoff.init threaded users progs) := by
+  refine ⟨?_, ?_, ?_⟩
+  · intro c hc; simp [Handoff.init] at hc
+  · intro hq; simp [Handoff.init, cpS] at hq
+  · intro hq; simp only [Handoff.init] at hq; split at hq <;> simp [cpH, cpPc] at hq
+
+/-- all the invariants of this file, for every reachable state -/
+structure InvAll (s : State) : Prop where
+  k : InvK s
+  st : InvS s
+  c : InvC s
+  w : InvW s
+  l : InvL s
+
+theorem reach_all {threaded users progs} {s : State} (hok : namesOk users progs) (hr : Reachable threaded users progs s) :
+    InvAll s :=
+  hr.induct (P := InvAll)
+    ⟨init_K _ _ _ hok, init_S _ _ _, init_C _ _ _, init_W _ _ _, init_L _ _ _⟩
+    (fun _ _ _ h hs => ⟨stepS_K h.k hs, stepS_S h.k h.st hs, stepS_C h.c hs, stepS_W h.w hs, stepS_L h.k h.c h.st h.w h.l hs⟩)
+    (fun _ _ _ h hs => ⟨stepH_K h.k hs, stepH_S h.k h.st hs, stepH_C h.c hs, stepH_W h.w hs, stepH_L h.k h.c h.w h.l hs⟩)
+    (fun _ _ _ _ h hs => ⟨stepF_K h.k hs, stepF_S h.k h.st hs, stepF_C h.c hs, stepF_W h.w hs, stepF_L h.k h.c h.l hs⟩)
+    (fun _ _ _ _ h hs => ⟨stepT_K h.k hs, stepT_S h.st hs, stepT_C h.c hs, stepT_W h.w hs, stepT_L h.l hs⟩)
+
+/-! ## no assertion fails, no thread dies -/
+
+/-- `assert task not in tasks` in `_select` holds -/
+theorem get_ok {s : State} (ha : InvAll s) {y : TaskId} {rest : List TaskId} (hq : s.incoming = y :: rest) :
+    y ∉ s.hubTasks := by
+  intro hm
+  have hty := ha.k.inc y (head_mem hq)
+  have hc := ha.c.cltU y hty
+  have h1 := ha.l.one y hc
+  have := count_pos_of_mem (head_mem hq)
+  have := count_pos_of_mem hm
+  have := sigAdj_le_stTok s.s s.tasks y
+  simp only [tok] at h1; omega
+
+/-- `assert task not in self._ready` holds when the hub runner puts the CallLaterTask back -/
+theorem ret_assert_ok {s : State} (ha : InvAll s) {t : TaskId}
+    (hp : s.s = .hub (.ret t .assert) ∨ s.h = .hub (.ret t .assert)) : t ∉ s.ready := by
+  intro hm
+  have hty : tagAt s.tasks t = some 1 := by
+    rcases hp with hp | hp
+    · have := ha.k.sref; simpa only [hp, sOk, hubOk] using this
+    · have := ha.k.href; simpa only [hp, hOk, hubOk] using this
+  have hc := ha.c.cltU t hty
+  have h1 := ha.l.one t hc
+  have := count_pos_of_mem hm
+  have := sigAdj_le_stTok s.s s.tasks t
+  have : 1 ≤ sTokC s.s t + hTokC s.h t := by
+    rcases hp with hp | hp
+    · simp only [hp, sTokC, ↓reduceIte]; omega
+    · simp only [hp, hTokC, ↓reduceIte]; omega
+  simp only [tok] at h1; omega
+
+def NoCrash (s : State) : Prop :=
+  s.s ≠ .crashed ∧ s.h ≠ .crashed ∧ ∀ (i : Nat) (f : FThread), s.fs[i]? = some f → f.pc ≠ .crashed
+
+theorem stepS_NC {s s' : State} (ha : InvAll s) (h : NoCrash s) (hs : stepS s = some s') : NoCrash s' := by
+  obtain ⟨h1, h2, h3⟩ := h
+  s_cases hs s hpc
+  all_goals first
+    | exact ⟨fun e => SPc.noConfusion e, h2, h3⟩
+    | (exfalso; exact get_ok ha (by assumption) (by assumption))
+    | (exfalso; exact ret_assert_ok ha (Or.inl hpc) (by assumption))
+    | (exfalso; exact h1 hpc)
+
+theorem stepH_NC {s s' : State} (ha : InvAll s) (h : NoCrash s) (hs : stepH s = some s') : NoCrash s' := by
+  obtain ⟨h1, h2, h3⟩ := h
+  h_cases hs s hpc
+  all_goals first
+    | exact ⟨h1, fun e => HPc.noConfusion e, h3⟩
+    | (exfalso; exact get_ok ha (by assumption) (by assumption))
+    | (exfalso; exact ret_assert_ok ha (Or.inr hpc) (by assumption))
+
+theorem stepT_NC {s s' : State} {t : Tid} (h : NoCrash s) (hs : stepT s t = some s') : NoCrash s' := by
+  obtain ⟨h1, h2, h3⟩ := h
+  t_cases hs s t hpc
+  all_goals first
+    | exact ⟨h1, h2, h3⟩
+    | exact ⟨fun e => SPc.noConfusion e, h2, h3⟩
+
+theorem stepF_NC {s s' : State} {i : Nat} (ha : InvAll s) (hsy : InvSy s) (h : NoCrash s) (hs : stepF s i = some s') :
+    NoCrash s' := by
+  obtain ⟨h1, h2, h3⟩ := h
+  f_cases hs s i f hf hpc
+  all_goals (have hsok := ha.k.fref i f hf; simp only [hpc, fOk] at hsok)
+  all_goals first
+    | (refine ⟨h1, h2, ?_⟩
+       intro j g hg
+       rcases set_cases hf hg with ⟨rfl, rfl⟩ | ⟨_, hg⟩
+       · exact fun e => FPc.noConfusion e
+       · exact h3 j g hg)
+    | (exfalso; exact ha.st.pending_not_ready ha.k hf (by rw [hpc]; simp [pendB]) hsok (by assumption))
+    | (exfalso
+       -- `outlock.release()` of an unlocked lock: the thread is inside its section, where `outlock` is held
+       obtain ⟨hv, _⟩ := hsy.sec i f hf (by rw [hpc]; rfl)
+       simp only [viewT] at hv
+       rw [(by assumption : s.tasks[f.syncer]? = some _)] at hv; simp [syncView] at hv)
+
+theorem reach_nocrash {threaded users progs} {s : State} (hok : namesOk users progs)
+    (hr : Reachable threaded users progs s) : NoCrash s :=
+  hr.induct (P := NoCrash)
+    (by
+      refine ⟨fun e => SPc.noConfusion e, ?_, ?_⟩
+      · simp only [Handoff.init]; split <;> exact fun e => HPc.noConfusion e
+      · intro i f hf; obtain ⟨q, rfl⟩ := init_fs hf; exact fun e => FPc.noConfusion e)
+    (fun _ _ hr h hs => stepS_NC (reach_all hok hr) h hs)
+    (fun _ _ hr h hs => stepH_NC (reach_all hok hr) h hs)
+    (fun _ _ _ hr h hs => stepF_NC (reach_all hok hr) (reach_Sy hr) h hs)
+    (fun _ _ _ _ h hs => stepT_NC h hs)
+
+/-! ## the CallLaterTask is always somewhere -/
+
+theorem clt_somewhere {s : State} (ha : InvAll s) {c : TaskId} (hc : s.cltTask = some c) :
+    c ∈ s.ready ∨ c ∈ s.incoming ∨ c ∈ s.hubTasks ∨ sTokC s.s c = 1 ∨ hTokC s.h c = 1 ∨
+    (∃ st : Nat, s.tasks[st]? = some (Kind.st c false)) ∨
+    (∃ (i : Nat) (f : FThread), s.fs[i]? = some f ∧ f.pc = .spawn .cl c) := by
+  have h1 := ha.l.one c hc
+  simp only [tok] at h1
+  by_cases a1 : c ∈ s.ready
+  · exact Or.inl a1
+  by_cases a2 : c ∈ s.incoming
+  · exact Or.inr (Or.inl a2)
+  by_cases a3 : c ∈ s.hubTasks
+  · exact Or.inr (Or.inr (Or.inl a3))
+  have z1 := List.count_eq_zero.mpr a1
+  have z2 := List.count_eq_zero.mpr a2
+  have z3 := List.count_eq_zero.mpr a3
+  have b1 : sTokC s.s c ≤ 1 := by unfold sTokC; split <;> first | omega | (split <;> omega)
+  have b2 : hTokC s.h c ≤ 1 := by unfold hTokC; split <;> first | omega | (split <;> omega)
+  by_cases a4 : sTokC s.s c = 1
+  · exact Or.inr (Or.inr (Or.inr (Or.inl a4)))
+  by_cases a5 : hTokC s.h c = 1
+  · exact Or.inr (Or.inr (Or.inr (Or.inr (Or.inl a5))))
+  by_cases a6 : stTok s.tasks c = 0
+  · right; right; right; right; right; right
+    have : 0 < spawnTok s.fs c := by omega
+    obtain ⟨g, hg, hp⟩ := List.countP_pos_iff.mp this
+    obtain ⟨j, hj⟩ := List.mem_iff_getElem?.mp hg
+    exact ⟨j, g, hj, by simpa using hp⟩
+  · right; right; right; right; right; left
+    have : 0 < stTok s.tasks c := by omega
+    obtain ⟨k, hk, hp⟩ := List.countP_pos_iff.mp this
+    obtain ⟨j, hj⟩ := List.mem_iff_getElem?.mp hk
+    have e : k = Kind.st c false := by simpa using hp
+    subst e; exact ⟨j, hj⟩
+
+/-! ## a wake-up is never lost (over histories) -/
+
+/-- any number of atomic actions and time-outs, by any threads -/
+inductive Steps : State → State → Prop
+  | refl (s : State) : Steps s s
+  | step {s s' s'' : State} (tid : Tid) : Steps s s' → step s' tid = some s'' → Steps s s''
+  | timeout {s s' s'' : State} (tid : Tid) : Steps s s' → stepT s' tid = some s'' → Steps s s''
+
+theorem Steps.reachable {threaded users progs} {s s' : State} (hr : Reachable threaded users progs s) (h : Steps s s') :
+    Reachable threaded users progs s' := by
+  induction h with
+  | refl => exact hr
+  | step tid _ hs ih => exact .step tid ih hs
+  | timeout tid _ hs ih => exact .timeout tid ih hs
+
+/-- the task is queued, or its slice is starting, or it has run since (`n0` = number of its slices at the wake-up) -/
+def Woken (v : TaskId) (n0 : Nat) (s : State) : Prop :=
+  n0 ≤ s.slices.count v ∧ (v ∈ s.ready ∨ s.s = .userBody v ∨ n0 < s.slices.count v)
+
+theorem woken_stepS {s s' : State} {v : TaskId} {n0 : Nat} (hK : InvK s) (hv : v < s.nUsers) (h : Woken v n0 s)
+    (hs : stepS s = some s') : Woken v n0 s' := by
+  have hty := hK.low v hv
+  obtain ⟨hn, h⟩ := h
+  s_cases hs s hpc
+  all_goals first
+    -- the slice of a user task starts: it is logged
+    | (refine ⟨by simp only [List.count_append]; omega, ?_⟩
+       rcases h with h | h | h
+       · exact Or.inl h
+       · rw [hpc] at h; cases h; right; right; simp only [List.count_append, List.count_singleton_self]; omega
+       · right; right; simp only [List.count_append]; omega)
+    -- a task is popped and dispatched
+    | (refine ⟨hn, ?_⟩
+       rcases h with h | h | h
+       · rw [(by assumption : s.ready = _ :: _)] at h
+         rcases List.mem_cons.mp h with h | h
+         · subst h
+           first
+             | exact Or.inr (Or.inl rfl)
+             | (have := tagAt_of (by assumption : s.tasks[v]? = some _); rw [hty] at this; cases this)
+         · exact Or.inl h
+       · rw [hpc] at h; cases h
+       · exact Or.inr (Or.inr h))
+    -- `ready` unchanged or grown, no slice logged
+    | (refine ⟨hn, ?_⟩
+       rcases h with h | h | h
+       · first | exact Or.inl h | exact Or.inl (List.mem_append_left _ h) | exact Or.inl (List.mem_cons_of_mem _ h)
+       · rw [hpc] at h; cases h
+       · exact Or.inr (Or.inr h))
+
+theorem woken_other {s s' : State} {v : TaskId} {n0 : Nat} (h : Woken v n0 s) (hS : s'.s = s.s) (hsl : s'.slices = s.slices)
+    (hr : ∀ x ∈ s.ready, x ∈ s'.ready) : Woken v n0 s' := by
+  obtain ⟨hn, h⟩ := h
+  refine ⟨by rw [hsl]; exact hn, ?_⟩
+  rcases h with h | h | h
+  · exact Or.inl (hr v h)
+  · exact Or.inr (Or.inl (by rw [hS]; exact h))
+  · exact Or.inr (Or.inr (by rw [hsl]; exact h))
+
+theorem woken_stepH {s s' : State} {v : TaskId} {n0 : Nat} (h : Woken v n0 s) (hs : stepH s = some s') : Woken v n0 s' := by
+  h_cases hs s hpc
+  all_goals first
+    | exact woken_other h rfl rfl (fun x hx => hx)
+    | exact woken_other h rfl rfl (fun x hx => List.mem_append_left _ hx)
+
+theorem woken_stepF {s s' : State} {v : TaskId} {n0 : Nat} {i : Nat} (h : Woken v n0 s) (hs : stepF s i = some s') :
+    Woken v n0 s' := by
+  f_cases hs s i f hf hpc
+  all_goals first
+    | exact woken_other h rfl rfl (fun x hx => hx)
+    | exact woken_other h rfl rfl (fun x hx => List.mem_append_left _ hx)
+
+theorem woken_stepT {s s' : State} {v : TaskId} {n0 : Nat} {t : Tid} (h : Woken v n0 s) (hs : stepT s t = some s') :
+    Woken v n0 s' := by
+  obtain ⟨hn, h⟩ := h
+  t_cases hs s t hpc
+  all_goals first
+    | exact ⟨hn, h⟩
+    | (refine ⟨hn, ?_⟩
+       rcases h with h | h | h
+       · exact Or.inl h
+       · rw [hpc] at h; cases h
+       · exact Or.inr (Or.inr h))
+
+/-- **a wake-up is never lost**: once a user task is in `ready` it stays there until the scheduler thread starts its
+    slice, and that slice is then logged — in every continuation of every interleaving -/
+theorem woken_forever {threaded users progs} {s s' : State} (hok : namesOk users progs)
+    (hr : Reachable threaded users progs s) {v : TaskId} (hv : v < s.nUsers) (hin : v ∈ s.ready) (hst : Steps s s') :
+    Woken v (s.slices.count v) s' ∧ s'.nUsers = s.nUsers := by
+  induction hst with
+  | refl => exact ⟨⟨Nat.le_refl _, Or.inl hin⟩, rfl⟩
+  | @step s1 s2 tid hpre hs ih =>
+    obtain ⟨hw, hnu⟩ := ih
+    have hr' := hpre.reachable hr
+    have hnu' : s2.nUsers = s.nUsers := by
+      rw [← hnu]
+      have e1 := reach_nUsers (hr'.step tid hs); have e2 := reach_nUsers hr'; rw [e1, e2]
+    refine ⟨?_, hnu'⟩
+    match tid, hs with
+    | 0, hs => exact woken_stepS (reach_all hok hr').k (by rw [hnu]; exact hv) hw hs
+    | 1, hs => exact woken_stepH hw hs
+    | i + 2, hs => exact woken_stepF hw hs
+  | @timeout s1 s2 tid hpre hs ih =>
+    obtain ⟨hw, hnu⟩ := ih
+    have hr' := hpre.reachable hr
+    have hnu' : s2.nUsers = s.nUsers := by
+      rw [← hnu]
+      have e1 := reach_nUsers (hr'.timeout tid hs); have e2 := reach_nUsers hr'; rw [e1, e2]
+    exact ⟨woken_stepT hw hs, hnu'⟩
+
+/-! ## the direct branch of `schedule()` (a cooperative task wakes another one) -/
+
+/-- after `fast_schedule(v)`'s append, `v` is in `ready` -/
+def DirSig (s : State) : Prop := ∀ t v, s.s = .usFs t v .signal → v ∈ s.ready
+
+theorem reach_DirSig {threaded users progs} {s : State} (hr : Reachable threaded users progs s) : DirSig s := by
+  refine hr.induct (P := DirSig) (fun t v hp => by cases hp) ?_ ?_ ?_ ?_
+  · intro s s' _ h hs
+    s_cases hs s hpc
+    all_goals intro t v hp
+    all_goals first
+      | (cases hp; done)
+      | (cases hp; exact List.mem_append_right _ List.mem_cons_self)
+  · intro s s' _ h hs
+    h_cases hs s hpc
+    all_goals intro t v hp
+    all_goals first
+      | exact h t v hp
+      | exact List.mem_append_left _ (h t v hp)
+  · intro s s' i _ h hs
+    f_cases hs s i f hf hpc
+    all_goals intro t v hp
+    all_goals first
+      | exact h t v hp
+      | exact List.mem_append_left _ (h t v hp)
+  · intro s s' t _ h hs
+    t_cases hs s t hpc
+    all_goals intro t v hp
+    all_goals first
+      | exact h t v hp
+      | (cases hp; done)
+
+/-- when `schedule(v)` called by a cooperative task returns, `v` is in the ready queue -/
+theorem direct_done_in_ready {s s' : State} (h : DirSig s) (hs : stepS s = some s') (t v : TaskId)
+    (hpc0 : s.s = .usContains t v ∨ s.s = .usFs t v .signal)
+    (hdone : ∀ p, s'.s ≠ .usFs t v p) : v ∈ s'.ready := by
+  s_cases hs s hpc
+  all_goals first
+    | (rcases hpc0 with hp | hp <;> (rw [hpc] at hp; cases hp; done))
+    | (exact absurd rfl (hdone _))
+    | (rcases hpc0 with hp | hp
+       · rw [hpc] at hp; cases hp; exact absurd rfl (hdone _)
+       · rw [hpc] at hp; cases hp)
+    | (rcases hpc0 with hp | hp
+       · rw [hpc] at hp; cases hp; assumption
+       · rw [hpc] at hp; cases hp)
+    | (rcases hpc0 with hp | hp
+       · rw [hpc] at hp; cases hp
+       · rw [hpc] at hp; cases hp; exact h _ _ hpc)
 
 end Pox.Handoff
